@@ -585,12 +585,20 @@ impl<'a> TestDriver for IoDriver<'a> {
 /// Run `tc` against an `io::Error` driver that fails once: one line per item ("row", "driver error
 /// <kind>", "error", "end") and the number of calls the driver saw after each.
 pub fn run_io_driver(tc: &dtr::TestCase, answer: &[(String, V)], fail_at: usize, kind: std::io::ErrorKind, max: usize) -> Vec<String> {
+    run_io_driver_via(tc, answer, fail_at, kind, max, false)
+}
+
+/// As `run_io_driver`; `deprecated_name` constructs the iterator through `run_iter`, the deprecated
+/// name of `try_iter`.
+#[allow(deprecated)]
+pub fn run_io_driver_via(tc: &dtr::TestCase, answer: &[(String, V)], fail_at: usize, kind: std::io::ErrorKind, max: usize, deprecated_name: bool) -> Vec<String> {
     hooks::set_seed_override(Some(1));
     let mut driver = IoDriver { outs: answer.iter().filter_map(|(n, v)| tc.signals.iter().find(|s| &s.name == n).map(|s| (s, v.to_output()))).collect(), fail_at, kind, calls: 0 };
     let mut lines = vec![];
     let r = guard(DEFAULT_BUDGET, || {
         let mut out = vec![];
-        let mut it = match tc.try_iter(&mut driver) {
+        let made = if deprecated_name { tc.run_iter(&mut driver) } else { tc.try_iter(&mut driver) };
+        let mut it = match made {
             Ok(it) => it,
             Err(dtr::errors::IterationError::Driver(e)) => {
                 out.push(format!("constructor: driver error {:?}", e.kind()));
@@ -607,7 +615,12 @@ pub fn run_io_driver(tc: &dtr::TestCase, answer: &[(String, V)], fail_at: usize,
                     out.push("end".to_string());
                     break;
                 }
-                Some(Ok(r)) => out.push(format!("row line {} outputs {}", r.line, r.outputs.len())),
+                Some(Ok(r)) => out.push(format!(
+                    "row line {} inputs [{}] outputs [{}]",
+                    r.line,
+                    r.inputs.iter().map(|e| format!("{}={}{}", e.signal.name, e.value, if e.changed { "*" } else { "" })).collect::<Vec<_>>().join(" "),
+                    r.outputs.iter().map(|e| format!("{}={}/{}", e.signal.name, e.output, e.expected)).collect::<Vec<_>>().join(" ")
+                )),
                 Some(Err(dtr::errors::IterationError::Driver(e))) => out.push(format!("driver error {:?}", e.kind())),
                 Some(Err(_)) => out.push("error".to_string()),
             }
